@@ -21,6 +21,9 @@ type State struct {
 	pendingSplits []*Term
 	// ghost results of the latest call per callee on this path: "Callee$name" -> instance
 	callGhosts map[string]*GhostInst
+	// ids of the facts that are branching conditions (path condition proper); the other facts are
+	// consequences/assumptions valid on the path
+	branch map[int]bool
 }
 
 func newState() *State {
@@ -41,7 +44,43 @@ func (s *State) clone() *State {
 	n.facts = append([]*Term(nil), s.facts...)
 	n.pendingSplits = append([]*Term(nil), s.pendingSplits...)
 	n.callGhosts = copyGhosts(s.callGhosts)
+	if s.branch != nil {
+		n.branch = make(map[int]bool, len(s.branch))
+		for k := range s.branch {
+			n.branch[k] = true
+		}
+	}
 	return n
+}
+
+// assumeBranch records a branching condition (if/switch/loop condition, path split).
+func (s *State) assumeBranch(f *Term) {
+	if f == True {
+		return
+	}
+	s.assume(f)
+	if s.branch == nil {
+		s.branch = map[int]bool{}
+	}
+	s.branch[f.id] = true
+}
+
+// disc is the condition that distinguishes this path from its siblings after the first n facts:
+// the conjunction of its branching conditions (all facts when none is tagged).
+func (s *State) disc(n int) *Term {
+	if n > len(s.facts) {
+		n = len(s.facts)
+	}
+	var bs []*Term
+	for _, f := range s.facts[n:] {
+		if s.branch[f.id] {
+			bs = append(bs, f)
+		}
+	}
+	if len(bs) == 0 {
+		return And(s.facts[n:]...)
+	}
+	return And(bs...)
 }
 
 func copyGhosts(m map[string]*GhostInst) map[string]*GhostInst {
@@ -93,10 +132,17 @@ func (s *State) specialize(c *Term, v bool) *State {
 			n.facts = append(n.facts, g)
 		}
 	}
+	n.branch = map[int]bool{}
+	for _, f := range n.facts {
+		// branch tags follow the substituted facts only when unchanged
+		if s.branch[f.id] {
+			n.branch[f.id] = true
+		}
+	}
 	if v {
-		n.assume(c)
+		n.assumeBranch(c)
 	} else {
-		n.assume(Not(c))
+		n.assumeBranch(Not(c))
 	}
 	for _, p := range s.pendingSplits {
 		if p != c {
@@ -553,9 +599,30 @@ func mergeStates(c *Term, a, b *State, nbase int) *State {
 		}
 	}
 	out.facts = append(out.facts, a.facts[:n]...)
-	ra := And(a.facts[n:]...)
-	rb := And(b.facts[n:]...)
-	out.assume(Or(ra, rb))
+	out.branch = map[int]bool{}
+	for _, f := range out.facts {
+		if a.branch[f.id] {
+			out.branch[f.id] = true
+		}
+	}
+	da, db := a.disc(n), b.disc(n)
+	if Not(da) != db {
+		out.assumeBranch(Or(da, db))
+	}
+	for _, f := range a.facts[n:] {
+		if !a.branch[f.id] || da == And(a.facts[n:]...) {
+			if da != And(a.facts[n:]...) {
+				out.assume(Implies(da, f))
+			}
+		}
+	}
+	for _, f := range b.facts[n:] {
+		if !b.branch[f.id] || db == And(b.facts[n:]...) {
+			if db != And(b.facts[n:]...) {
+				out.assume(Implies(db, f))
+			}
+		}
+	}
 	return out
 }
 
